@@ -532,11 +532,7 @@ func (x *Exec) merge(a, b *State) *State {
 	}
 	c := a.guard
 	n := &State{guard: Or(a.guard, b.guard), wlog: a.wlog}
-	if n.guard.size > 24 {
-		g := x.vc.fresh("g", BoolS)
-		x.vc.facts = append(x.vc.facts, Fact{T: mk("=", "", BoolS, nil, g, n.guard), Def: g})
-		n.guard = g
-	}
+	n.guard = x.nameBool(n.guard)
 	n.env = map[types.Object]*Value{}
 	for k, va := range a.env {
 		if vb, ok := b.env[k]; ok {
